@@ -315,6 +315,11 @@ fn generate(ctx: &Ctx) {
 }
 
 fn main() {
+  // `anyhow` (used by the SD-JWT VC code paths and `IntegrityMetadata`) captures a backtrace for every error value
+  // when RUST_BACKTRACE is set in the environment: ~10 µs per rejected input behind a process-wide lock, which
+  // serialises the 16 workers. Backtraces of error VALUES are irrelevant to the property; switch them off before
+  // any thread exists (panic locations are recorded by the vx hook independently of this).
+  std::env::set_var("RUST_LIB_BACKTRACE", "0");
   // hidden child mode of the hostile family: must be handled before vx parses the arguments
   let args: Vec<String> = std::env::args().collect();
   TRACE.store(std::env::var_os("C05_TRACE").is_some(), std::sync::atomic::Ordering::Relaxed);
